@@ -428,6 +428,42 @@ def check_case(case, rec):
             if want and len(want) < len(m):
                 rec.nt((full, ms))
                 rec.sample('atom-query', dict(smarts=full, molecule=ms, matched=sorted(want)), cap=5)
+    # queries derived from a template atom (QueryElement.from_atom) with drawn flags: must select exactly the atoms that agree with
+    # the template in element, isotope, charge, radical state and in every flagged attribute (independent vectors)
+    from chython.periodictable import QueryElement
+    frnd = _random.Random(len(ms) * 7919 + case.get('explicit_h', 0))
+    for n in frnd.sample(list(m), min(3, len(m))):
+        a = m.atom(n)
+        flags = {k: frnd.random() < .5 for k in ('neighbors', 'hybridization', 'heteroatoms', 'hydrogens', 'ring_sizes')}
+        if flags['ring_sizes'] and (ring is None or vec[n]['rsizes'] is None):
+            flags['ring_sizes'] = False
+        if flags['ring_sizes']:
+            from .c06 import theta_gap
+            if theta_gap(mcb.mol_adj(m)):
+                flags['ring_sizes'] = False  # recorded gap of ring perception (C06): reported ring sizes may be non-minimal there
+        ok, qa = rec.guard('api-build', lambda: QueryElement.from_atom(a, **flags))
+        if not ok:
+            continue
+        qc = QueryContainer('from_atom')
+        qc.add_atom(qa, 1)
+        ok, got = rec.guard('match', lambda: {mp[1] for mp in qc.get_mapping(m, automorphism_filter=False)})
+        if not ok:
+            continue
+        v0 = vec[n]
+        keys = ['z', 'charge', 'radical'] + [k for k, f in (('D', flags['neighbors']), ('hyb', flags['hybridization']),
+                                                            ('x', flags['heteroatoms']), ('h', flags['hydrogens'])) if f]
+        # an isotope on the template is part of the query, no isotope means any isotope; a ring-size list means "in a ring of one
+        # of these sizes" (the r primitive), an empty one "not in a ring"
+        want = {k for k, v in vec.items() if all(v[key] == v0[key] for key in keys) and (not v0['iso'] or v['iso'] == v0['iso']) and
+                (not flags['ring_sizes'] or v['rsizes'] is None or (bool(v['rsizes'] & v0['rsizes']) if v0['rsizes'] else not v['rsizes']))}
+        if flags['ring_sizes'] and any(v['rsizes'] is None for v in vec.values()):
+            continue
+        rec.count('from-atom-queries')
+        if got != want:
+            rec.fail('atom-primitive', f'QueryElement.from_atom(atom {n} of {ms!r}, {[k for k, f in flags.items() if f]}): matched '
+                                       f'{sorted(got)}, atoms agreeing with the template in those attributes {sorted(want)}',
+                     sig='from_atom:' + ','.join(k for k, f in flags.items() if f))
+            return
     bonds = {(a, b): bond for a, k in m._bonds.items() for b, bond in k.items()}
     for q1, b, q2 in case['pairs']:
         q1, q2 = [dict(q, iso=None) if q['iso'] and (q['el'][0] in ('any', 'list', 'metal') or not tabulated(q)) else q
